@@ -45,6 +45,9 @@ type c12Params struct {
 	// cancel: Second - another task has started the handshake through Read and is blocked in it when
 	// HandshakeContext is called (and then cancelled)
 	Second bool `json:"second,omitempty"`
+	// cancel: Pre - the context has ended before HandshakeContext is called (server role: its first step is a
+	// read); the peer then goes through the whole handshake and sends data
+	Pre bool `json:"pre,omitempty"`
 	// api
 	Seq []string `json:"seq,omitempty"`
 }
@@ -71,7 +74,7 @@ func (c12) Make(tier string, seed uint64, i int) *Case {
 	return &Case{Prop: "C12", Index: i, Seed: CaseSeed(seed, "C12", i)}
 }
 
-var c12APIOps = []string{"handshake", "write", "read", "closewrite", "close", "write", "close", "handshake", "deadline"}
+var c12APIOps = []string{"handshake", "write", "read", "closewrite", "close", "write", "close", "handshake", "deadline", "write0", "write0"}
 
 func drawC12(src *vs.Src) *c12Params {
 	p := &c12Params{Suite: pickU16(src, []uint16{ECC_GCM, ECC_CBC}), Dir: src.Intn(2), Seg: src.Intn(3)}
@@ -109,7 +112,10 @@ func drawC12(src *vs.Src) *c12Params {
 		p.Role = pickStr(src, []string{"client", "server"})
 		p.Step = src.Intn(4)
 		p.Second = src.Bool(1, 3)
-		if src.Bool(1, 2) {
+		if !p.Second && src.Bool(1, 3) {
+			p.Pre, p.Role = true, "server"
+		}
+		if !p.Pre && src.Bool(1, 2) {
 			// instead of cancelling a context: the connection's deadline expires while the peer is slow; the
 			// deadline is then cleared and the peer's messages arrive late
 			p.Mode = "hs-timeout"
@@ -370,6 +376,11 @@ func c12Scripted(c *Case, src *vs.Src, p *c12Params, r *Result) {
 			}
 		})
 	}
+	if p.Mode == "cancel" && p.Pre {
+		cancel()
+		ctxErr = ctx.Err()
+		h.Pipe.S.AwaitExternalClose = true
+	}
 	w.Go("real", func() {
 		if p.Mode == "cancel" && p.Second {
 			vs.Block(func() bool { return firstIn }, time.Time{})
@@ -420,6 +431,17 @@ func c12Scripted(c *Case, src *vs.Src, p *c12Params, r *Result) {
 			pr.SendApp([]byte("data after the alerts"))
 			pr.Run(o, []string{"rAPP"})
 		case "early-app", "cancel", "hs-timeout":
+			if p.Mode == "cancel" && p.Pre {
+				// the server's first transport read (inside the handshake, after the library has started its
+				// interrupter goroutine) waits for that goroutine to close the transport (AwaitExternalClose); a
+				// library that does not close it gets the whole handshake and some data
+				vs.Block(func() bool { return h.Pipe.S.Reads > 0 }, time.Time{})
+				if out := pr.Run(o, script); out.Err == nil {
+					pr.SendApp([]byte("data for a connection whose handshake was cancelled"))
+				}
+				pr.Run(o, []string{"rAPP"})
+				break
+			}
 			sends := 0
 			rest := script
 			for i, op := range script {
@@ -458,7 +480,7 @@ func c12Scripted(c *Case, src *vs.Src, p *c12Params, r *Result) {
 		}
 		h.ClosePeerSide()
 	})
-	if p.Mode == "cancel" {
+	if p.Mode == "cancel" && !p.Pre {
 		w.Go("canceller", func() {
 			vs.Block(func() bool { return stalled }, time.Time{})
 			vs.Sleep(5 * time.Millisecond)
@@ -583,6 +605,8 @@ func c12API(c *Case, src *vs.Src, p *c12Params, r *Result) {
 				s.err = ut.Handshake()
 			case "write":
 				s.n, s.err = ut.Write([]byte("payload"))
+			case "write0":
+				s.n, s.err = ut.Write([]byte{})
 			case "read":
 				ut.SetReadDeadline(vs.Now().Add(time.Second))
 				s.n, s.err = ut.Read(buf)
@@ -617,6 +641,19 @@ func c12API(c *Case, src *vs.Src, p *c12Params, r *Result) {
 			}
 			if !closed && s.err != nil {
 				r.Violate("api", sigp+" handshake-failed", "%s", desc)
+			}
+			if s.err == nil {
+				shook = true
+			}
+		case "write0":
+			// a Write without payload is a Write: it fails wherever a Write fails, and otherwise reports 0
+			switch {
+			case closed && s.err == nil:
+				r.Violate("api", sigp+" empty-write-after-close", "%s", desc)
+			case halfClosed && s.err == nil:
+				r.Violate("api", sigp+" empty-write-after-closewrite", "%s", desc)
+			case !closed && !halfClosed && (s.err != nil || s.n != 0):
+				r.Violate("api", sigp+" empty-write-failed", "%s", desc)
 			}
 			if s.err == nil {
 				shook = true
